@@ -580,6 +580,8 @@ pub struct Snap {
     pub sock_backoff: Vec<bool>,
     pub sock_expired: Vec<bool>,
     pub sock_remain_ms: Vec<i64>,
+    /// per worker: its waker has fired since its last poll (a poll is owed)
+    pub wwoken: Vec<bool>,
     pub wq: Vec<String>,
     pub counter: Vec<i64>,
     pub chan: Vec<i64>,
@@ -1330,6 +1332,7 @@ impl Sim {
         s.dload = e.dload.clone();
         s.dafterfail = e.dafterfail.clone();
         s.dmaxload = e.dmaxload.clone();
+        s.wwoken = e.workers.iter().map(|w| w.flag.0.load(Ordering::SeqCst)).collect();
         s.davail = e.davail.clone();
         s.in_hand = e.in_hand.map(|c| c as i64).unwrap_or(-1);
         s.inprog = vec![vec![]; n];
